@@ -518,7 +518,7 @@ func init() {
 			rb = append(rb, explore.Bounds{Preempt: 3})
 		}
 		for _, ra := range []string{"4c", "50", "51"} {
-			explore.IterateDFS(c, "c15race", ra, rb, 8*time.Second)
+			explore.IterateDFS(c, "c15race", ra, rb, 6*time.Second)
 		}
 		firsts := []string{"5.0.1", "5.0.3", "4.0.-", "5.0.-", "4.1.-"}
 		per := 9 * time.Second
